@@ -93,7 +93,7 @@ package util
 //@ func (*TimeWheel).add
 //@   requires tw != nil && task != nil && twBase(tw) && twIndex(tw) && twSingle(tw) && 0 <= secs(task.delay) && secs(task.delay) <= 1<<40
 //@   ensures case wf:     twBase(tw) && twIndex(tw) && twSingle(tw) && tw.currentIndex == old(tw.currentIndex) && tw.bucketsNum == old(tw.bucketsNum)
-//@   ensures case entry:  has(tw.bucketIndexes, task.key) && tw.buckets[tw.bucketIndexes[task.key]][task.key] == task
+//@   ensures case entry:  has(tw.bucketIndexes, task.key) && tw.buckets[tw.bucketIndexes[task.key]][task.key].callback == task.callback
 //@   ensures case due:    ticksLeft(tw, task.key) == secs(task.delay) / secs(tw.tick)
 //@   ensures case onTime: ticksLeft(tw, task.key) * secs(tw.tick) >= secs(task.delay)
 //@   ensures case others: forall(k interface{}, k != task.key ==> has(tw.bucketIndexes, k) == old(has(tw.bucketIndexes, k)) && tw.bucketIndexes[k] == old(tw.bucketIndexes[k]))
